@@ -40,4 +40,109 @@ theorem tie_frame_codes :
     FK.code .catch_ = Gen.C05.frameCatch ∧ FK.code .fake = Gen.C05.frameFake ∧
     Gen.C05.frameCatch &&& Gen.C05.frameMask = Gen.C05.frameCatch := by decide
 
+/-! ### which global variables an error unwinding has to put back (regenerated lists, `gen_globals` of props/c05.py) -/
+
+/-- every field of `error_context_t` except the jmp_buf itself is written by save_context -/
+theorem tie_context_fields_saved : ∀ f ∈ Gen.C05.ctxFields, f = "context" ∨ f ∈ Gen.C05.ctxSaved := by decide
+
+/-- **every field saved is restored**: each field save_context writes is read back by restore_context, or — the link to the
+    enclosing context — by pop_context -/
+theorem tie_every_field_saved_is_restored :
+    ∀ f ∈ Gen.C05.ctxSaved, f ∈ Gen.C05.ctxRestored ∨ f ∈ Gen.C05.ctxPopped := by decide
+
+/-- the global variables an error context holds are exactly the ones the model's `Ctx` (+ the chain) holds:
+    `saveCg, (chain), saveCsp, saveVerb, saveLd, saveRd, saveSp` -/
+theorem tie_context_globals :
+    Gen.C05.ctxHolds.map (·.2) =
+      ["command_giver", "current_error_context", "csp", "last_verb", "num_objects_this_thread", "restrict_destruct", "sp"] := by decide
+
+/-- the registers a control-stack frame saves are exactly the fields of the model's `Saved`
+    (`callerType, co, prevOb, fp, prog, pc, fio, vio`; `framekind` is the frame's own tag) -/
+theorem tie_frame_registers :
+    (Gen.C05.frameSaved.map (·.2)).filter (· ∈ Gen.C05.coreGlobals) =
+      ["caller_type", "current_object", "previous_ob", "fp", "current_prog", "pc", "function_index_offset", "variable_index_offset"] := by decide
+
+/-- every register push_control_stack saves is restored by pop_control_stack from the same frame field -/
+theorem tie_frame_saved_is_restored :
+    ∀ p ∈ Gen.C05.frameSaved, p.2 ∈ Gen.C05.coreGlobals → (p.2, p.1) ∈ Gen.C05.frameRestored := by decide
+
+/-- how each global variable of the interpreter core is dealt with when an error unwinds -/
+inductive GClass
+  | frame        -- saved in every control-stack frame, restored by pop_control_stack (restore_context pops the first frame)
+  | context      -- saved in the error context, restored by restore_context / pop_context
+  | handler      -- put back by error_handler itself before the longjmp (or by the receiving construct: do_catch, pop_context)
+  | loop         -- cleared by the resume point (top of the backend loop)
+  | balanced     -- pushed and popped around a call that cannot longjmp past it (`tie_command_giver_stack`)
+  | scratch      -- written before every use, never read across an evaluation
+  | fixed        -- set up at start-up / a table / a statistic; not evaluation state
+  deriving DecidableEq, Repr
+
+def classOf (g : String) : Option GClass :=
+  if g ∈ ["caller_type", "current_object", "previous_ob", "fp", "current_prog", "pc", "function_index_offset",
+          "variable_index_offset"] then some .frame
+  else if g ∈ ["command_giver", "current_error_context", "csp", "sp", "num_objects_this_thread", "restrict_destruct",
+               "last_verb"] then some .context
+  else if g ∈ ["in_error", "in_mudlib_error_handler", "mudlib_error_handler_context", "handler_limit_state", "error_state",
+               "catch_value"] then some .handler
+  else if g ∈ ["current_interactive"] then some .loop
+  else if g ∈ ["cgsp", "command_giver_stack", "command_giver_held"] then some .balanced
+  else if g ∈ ["num_varargs", "st_num_arg", "call_origin", "apply_ret_value", "global_lvalue_byte", "global_lvalue_range",
+               "global_lvalue_range_sv", "lvalue_byte_in_buffer", "illegal_sentence_action", "inherit_file"] then some .scratch
+  else if g ∈ ["apply_low_cache_hits", "apply_low_call_others", "apply_low_collisions", "apply_low_slots_used", "cache",
+               "const0", "const0u", "const1", "control_stack", "efun_table", "end_of_stack", "start_of_stack", "master_ob",
+               "obj_list", "obj_list_destruct", "proceeding_fatal_error", "saved_master_name", "saved_simul_name",
+               "type_names"] then some .fixed
+  else none
+
+/-- **no unclassified interpreter global**: a global variable added to interpret.c / frame.c / stack.c / error_context.c /
+    apply.c / simulate.c has to be looked at (is it saved? reset?) before this obligation holds again -/
+theorem tie_all_globals_classified : ∀ g ∈ Gen.C05.coreGlobals, (classOf g).isSome = true := by decide
+
+/-- every global classified `frame` really is saved by push_control_stack, every one classified `context` by save_context -/
+theorem tie_classes_match_source :
+    (∀ g ∈ Gen.C05.coreGlobals, classOf g = some .frame → g ∈ Gen.C05.frameSaved.map (·.2)) ∧
+    (∀ g ∈ Gen.C05.coreGlobals, classOf g = some .context → g ∈ Gen.C05.ctxHolds.map (·.2)) := by decide
+
+/-- the command_giver save stack has one user and nothing between its push and its pop can longjmp -/
+theorem tie_command_giver_stack : Gen.C05.cgStackUsers = 1 ∧ Gen.C05.cgStackUnsafeCalls = [] := by decide
+
+/-- the efuns the generator drives with a `handler` slot (and destruct_object of a vital object) still leave a
+    T_ERROR_HANDLER slot across their callbacks (inventory `Gen.C05.callbackSites`, regenerated from the source) -/
+theorem tie_callback_handlers :
+    ∀ f ∈ ["f_unique_array", "f_sort_array", "f_unique_mapping", "destruct_object"], (f, true) ∈ Gen.C05.callbackSites := by decide
+
+/-- catch_value is a global that every catch() run by the master's error handler overwrites: error_handler assigns the
+    message to it only after that handler has returned (the model's `raise`: `runHandler … true`, THEN `catchValue := .msg msg`) -/
+theorem tie_catch_value_order : Gen.C05.errorHandlerSetsCatchValueAfterHandler = true := by decide
+
+/-- an error raised inside the master's handler clears "in the mudlib error handler" only when it is delivered to the
+    context that was current at the handler's entry.  The model's handler (`runHandlerN`) never saves a context of its own,
+    so in the model every second-level error abandons the handler and `raiseInner` / `raise` clear the flag
+    unconditionally; handlers that run catch() themselves are exercised on the real driver (`b-handler-script-*`). -/
+theorem tie_handler_flag : Gen.C05.errorHandlerKeepsFlagInsideHandler = true := by decide
+
+/-- the limit bits (ES_STACK_FULL / ES_MAX_EVAL_COST) of the error the master's handler runs for are recorded at the entry,
+    set again when the handler returns and re-instated for an error that abandons the handler — in the same guarded block
+    that clears the flag; an error caught by the handler's own catch sees its own state.  In the model nothing inside the
+    handler clears `errState` (`runHandlerN` completes no catch), so `raiseInner` / `raise` deliver it unchanged. -/
+theorem tie_handler_limit_state : Gen.C05.errorHandlerKeepsLimitState = true := by decide
+
+/-- variables of verification hooks (only mentioned inside `#ifdef NEOLITH_VERIF`) are not part of `coreGlobals` -/
+theorem tie_hook_globals_apart : ∀ g ∈ Gen.C05.hookGlobals, g ∉ Gen.C05.coreGlobals := by decide
+
+/-- the model's `raise` sets catch_value after the handler, in the state the handler returned -/
+theorem raise_sets_catch_value_after_handler (msg : String) (m m' : M)
+    (hc : catchable (resetGuards m) = true) (hm : m.inMudlibHandler = false)
+    (hh : runHandler msg true { resetGuards m with inMudlibHandler := true } = .ok m') :
+    raise msg m = longjmp { m' with inMudlibHandler := false, catchValue := .msg msg } := by
+  have hm' : (resetGuards m).inMudlibHandler = false := hm
+  simp only [raise, hc, hm', ↓reduceIte, Bool.false_eq_true]
+  rw [hh]
+
+/-- the recovery points of backend.c have the shape `runBackend` / the sweep ops mirror; error_handler switches the
+    heart beat off last (the model's `hbOffStep` sits in the same three branches) -/
+theorem tie_backend_shapes :
+    Gen.C05.backendRecoveryShape = true ∧ Gen.C05.sweepRecoveryShape = true ∧
+    Gen.C05.heartBeatSetsRegistersBeforeFrame = true ∧ Gen.C05.errorHandlerHeartBeatOffLast = true := by decide
+
 end NV.C05
